@@ -2,7 +2,7 @@ SPECIFICATION Spec
 CONSTANTS
   Families <- AllFamilies
   ModeCounts = {0, 1, 2, 3, 4}
-  WidthOpts = {"none", "given"}
+  WidthOpts = {"none", "given", "zero"}
   ThresholdRules <- AllRules
 INVARIANT ClassAsRequested
 INVARIANT ModesAsRequested
